@@ -55,7 +55,7 @@ def patterns(tier, seed):
     if tier == "quick":
         sel = cheap + alt1[:18] + two0[:14] + two1[:5] + thr0[:6]
     else:
-        sel = cheap + alt1 + alt2[:12] + two0[:80] + two1[:40] + two2[:10] + thr0[:40] + thr1[:16]
+        sel = cheap + alt1 + two0[:80] + two1[:20] + thr0[:40]
     res = []
     for i, (cs, slash) in enumerate(sel):
         if tier == "quick":
